@@ -148,6 +148,8 @@ class CallMixin:
                     obj.a['view'] = view.short
                     for f, fty in view.fields.items():
                         st.set_field(obj, f, Val('unset', None, fty=fty))     # instance attribute not assigned yet
+                for h in self.reg.attr_hooks:
+                    h(self, 'constructed', (cls, obj, args, kwargs), st)
                 outs = []
                 for o in self.call_function(q, [obj] + args, kwargs, st, node):
                     outs.append(o if o[0] == 'raise' else ('val', o[1], obj))
@@ -397,7 +399,7 @@ class CallMixin:
         if name == 'endswith':
             return [('val', st, VB(SuffixOf(strz(args[0]), s)))]
         if name == 'isspace':
-            return [('val', st, VB(ops.str_isspace(s)))]
+            return [('val', st, VB(ops.isspace_z(s)))]
         if name in ('strip', 'lstrip', 'rstrip'):
             if args or kwargs:
                 raise Unsupported('strip with arguments')
